@@ -89,6 +89,8 @@ def gen_graph(rng, wide=False):
             if deps and rng.random() < p_uns:
                 deps.insert(rng.randint(1, len(deps)), {"k": "unreq", "n": rng.choice(names), "v": None, "j": rng.random() < 0.3})
             prods.append({"name": m, "version": v, "deps": deps, "tags": ["current"] if v == cur else []})
+            if not deps and rng.random() < 0.3:
+                prods[-1]["notable"] = True        # declared without a table file
     if rng.random() < 0.3 and len(names) >= 3:
         # a product reached through a -j line and through an ordinary path, in both orders, the -j target having
         # dependencies of its own: it must be opened by the ordinary visit whichever comes first
@@ -108,6 +110,9 @@ def gen_graph(rng, wide=False):
             if not any(d["k"] in ("req", "opt") for d in byname[x]["deps"]):
                 byname[x]["deps"].append({"k": "req", "n": z, "v": None, "j": False})
             prods.append(top)
+            for q in (byname[x], byname[y]):
+                if q["deps"]:
+                    q.pop("notable", None)
             shape += "+j"
     rng.shuffle(prods)
     return {"products": prods, "shape": shape}
@@ -453,6 +458,8 @@ def evaluate(ctx, graphs, ncli=2, corpus=False):
         if g.get("shape", "").endswith("+j"):
             ctx.hist("shape+j")
         ctx.hist("products=%d" % len(g["products"]))
+        if any(p.get("notable") for p in g["products"]):
+            ctx.hist("graph:has_product_without_table")
         for ri, r in enumerate(roots):
             for mi, mode in enumerate(MODES):
                 out, mo = io_["lists"][ri][mi], ml[ri][mi]
